@@ -108,7 +108,8 @@ struct XParse : Engine {
             }
         } else if (stage == "shortcuts") {
             // number tokens around the 63-character copy limit
-            for (int len : { 1, 2, 17, 25, 26, 61, 62, 63, 64, 65, 66, 127, 200 }) for (int form = 0; form < 8; form++) {
+            std::vector<int> numlens; for (int len = 1; len <= 130; len++) numlens.push_back(len); numlens.push_back(200); numlens.push_back(300);
+            for (int len : numlens) for (int form = 0; form < 8; form++) {
                 std::string s;
                 switch (form) {
                     case 0: s.assign(len, '1'); break;
@@ -124,6 +125,14 @@ struct XParse : Engine {
             }
             // long runs of number characters that contain no convertible number (must be rejected without leaving anything behind)
             for (int len : { 5, 62, 63, 64, 65, 70, 130 }) for (const char* pre : { "--", "-e", "-.e", "-+", "-.", "-E-" }) for (int ctx = 0; ctx < 3; ctx++) { std::string b = std::string(pre) + std::string((size_t)len, '7'); emit(ctx == 0 ? b : ctx == 1 ? "[" + b + "]" : "{\"k\":" + b + "}"); }
+            // string literals (as value and as member name) of every decoded length 0..300 and around 512 / 1024 / 4096: plain, ending in an escape, made of escapes only,
+            // and the same cut off before the closing quote / inside the final escape
+            { std::vector<int> lad; for (int i = 0; i <= 300; i++) lad.push_back(i); for (int i : { 511, 512, 513, 1023, 1024, 1025, 4095, 4096, 4097 }) lad.push_back(i);
+              static const char* tails[] = { "", "\\n", "\\u00e9", "\\uD83D\\uDE00", "\\\"", "\xc3\xa9" };
+              for (int L : lad) { if (!pool_take()) continue; for (auto tl : tails) for (int body = 0; body < 2; body++) { if (body && L > 1100) continue;
+                  std::string lit = "\""; if (body == 0) lit += std::string((size_t)L, 'p'); else for (int i = 0; i < L; i++) lit += (i % 3 == 0) ? "\\t" : (i % 3 == 1) ? "\\u0041" : "q";
+                  lit += tl; std::string full = lit + "\"";
+                  emit_now(full); emit_now("[" + full + "]"); emit_now("{" + full + ":" + full + "}"); emit_now(lit); emit_now("[1," + lit); if (tl[0]) emit_now(full.substr(0, full.size() - 2)); } } }
             // a long well-formed number followed by every tail of up to 4 number characters (whatever is done with the part that does not fit a
             // fixed-size scratch buffer, the whole token still has to be a JSON number)
             { static const char TA[] = { '-', '+', '.', 'e', 'E', '5' };
